@@ -31,6 +31,7 @@ namespace hgvc
         long                             late{2};    // first cycle of the late probe
         bool                             rr{true};   // run the record/replay round trip (graph 2)
         std::map<long, std::vector<Op>>  script;     // cycle -> ops
+        std::map<long, std::vector<Op>>  activity;   // cycle -> act / pas of a child link of an un-peered probe input (after the observation)
     };
     extern Scenario *g_scn;
 
@@ -52,6 +53,12 @@ namespace hgvc
     // ---- scripted mutation of an output through the real mutation API ----
     void run_ops(const TSOutputView &root, DateTime now);          // logs "ops" and the producer view "w"
     long next_script_time(long after_k);                            // 0 = none
+    // un-peered consumers: the composite is assembled from one scalar writer per child; writer `part` performs the ops whose
+    // path starts with `part`; the first probe logs the cycle's combined script ("ops") before its observation
+    void run_part_ops(long part, const TSOutputView &out, DateTime now);
+    long next_part_time(long part, long after_k);
+    void log_script(DateTime now);
+    void run_activity(long id, const TSInputView &x, DateTime now);
     void log_probe(long id, long graph, const TSInputView &x, DateTime now);
     void log_shadow(const TSInputView &x, DateTime now);            // apply captured delta to the scratch, re-capture
     void dump_recording(const GlobalStateView &gs, const std::string &key, const TSValueTypeMetaData *schema, long graph);
